@@ -204,7 +204,7 @@ func (w *failWriter) Write(p []byte) (int, error) {
 func init() {
 	core.Register(&core.Check{
 		ID: "C10", Level: "fault_enumeration",
-		Rule: "inputs: an honest 576-byte proof with EVERY single-field substitution (17 point fields x {other valid point, x+p alias, non-subgroup x, off-curve x, 0, 1, p-1, p, 2^256-1, p-x}; scalar x {0,1,r-1,r,r+1,2^253,2^256-1}), all pairs of substitutions in thorough, every length 0..600 (truncation at every byte, 1..24 trailing bytes), through MultiProof.Read and IPAProof.Read against a reference field decoder, with Write(Read(x)) = x; fault sequences: for 4 inputs (valid, 577 bytes, 575 bytes, invalid scalar) ALL reader answer sequences with <= 2 deviations from 'full read' over {1 byte, half, data+EOF, injected error} (every Read call is a choice point), the extreme profiles (always 1 byte, always half, data+EOF at the end), an injected error at EVERY byte offset 0..576, and a failing / short-writing writer at EACH write call; non-trivial = every substituted, truncated, extended or fault-injected case",
+		Rule:   "inputs: an honest 576-byte proof with EVERY single-field substitution (17 point fields x {other valid point, x+p alias, non-subgroup x, off-curve x, 0, 1, p-1, p, 2^256-1, p-x}; scalar x {0,1,r-1,r,r+1,2^253,2^256-1}), all pairs of substitutions in thorough, every length 0..600 (truncation at every byte, 1..24 trailing bytes), through MultiProof.Read and IPAProof.Read against a reference field decoder, with Write(Read(x)) = x; fault sequences: for 4 inputs (valid, 577 bytes, 575 bytes, invalid scalar) ALL reader answer sequences with <= 2 deviations from 'full read' over {1 byte, half, data+EOF, injected error} (every Read call is a choice point), the extreme profiles (always 1 byte, always half, data+EOF at the end), an injected error at EVERY byte offset 0..576, and a failing / short-writing writer at EACH write call; non-trivial = every substituted, truncated, extended or fault-injected case",
 		Assume: []string{"well-behaved reader = obeys the io.Reader contract and never returns (0, nil)", "reference decoder = C06 predicate per point field, little-endian value < r for the scalar, exact length"},
 		Units:  c10Units,
 	})
